@@ -289,12 +289,10 @@ func (p *TracerProvider) Shutdown(ctx context.Context) error {
 
 	var retErr error
 	for _, sps := range p.getSpanProcessors() {
-		select {
-		case <-ctx.Done():
-			return ctx.Err()
-		default:
-		}
-
+		// Every processor is shut down even if ctx is already done: the
+		// provider is marked as shut down above, so returning early would
+		// leave the remaining processors running (and exporting) with no way
+		// to ever stop them. Each processor honors ctx itself.
 		var err error
 		sps.state.Do(func() {
 			err = sps.sp.Shutdown(ctx)
